@@ -113,8 +113,8 @@ func runPlan(prop string, plan []planItem) int {
 			labels = append(labels, fmt.Sprintf("%s=%d", k, v))
 		}
 		sort.Strings(labels)
-		perScenario[pi.Sc.Name] = map[string]interface{}{"bound_completed": completed, "executions": last.Execs, "scheduling_points": last.Points, "max_depth": last.MaxDepth, "distinct_end_states": last.States, "outcomes": labels, "wall_s": last.Wall}
-		fmt.Printf("  %-28s bound=%d execs=%d points=%d states=%d depth=%d wall=%.1fs outcomes: %s\n", pi.Sc.Name, completed, last.Execs, last.Points, last.States, last.MaxDepth, last.Wall, strings.Join(labels, " "))
+		perScenario[pi.Sc.Name] = map[string]interface{}{"bound_completed": completed, "executions": last.Execs, "scheduling_points": last.Points, "max_depth": last.MaxDepth, "distinct_end_states": last.States, "outcomes": labels, "wall_s": last.Wall, "hb_pruned_subtrees": last.Pruned}
+		fmt.Printf("  %-28s bound=%d execs=%d pruned=%d points=%d states=%d depth=%d wall=%.1fs outcomes: %s\n", pi.Sc.Name, completed, last.Execs, last.Pruned, last.Points, last.States, last.MaxDepth, last.Wall, strings.Join(labels, " "))
 		if len(last.Labels) < 2 {
 			fmt.Printf("  note: scenario %s shows a single outcome (does not count as non-trivial)\n", pi.Sc.Name)
 		}
